@@ -519,17 +519,17 @@ fn c03(seed: u64, _cases: usize, _model_path: &str) -> serde_json::Value {
     // message it sends (MAC kept) and flips one incoming share the same way, so that its own view agrees with the value the honest parties now hold.
     // If the opening is accepted, every party works with a consistent, correctly MACed, WRONG triple: nothing later can notice, and the AND gate
     // computes (x & y) ^ mask. The victim's input is false, so the only admissible output is false.
-    for n in [2usize, 3] { for (adv, victim) in [(1usize, 0usize), (0, n - 1)] { for which in [8usize, 9] { for rep in 0..4 {
+    for n in [2usize, 3] { for (adv, victim) in [(1usize, 0usize), (0, n - 1)] { for (lie_phase, which) in [("faand", 8usize), ("faand", 9), ("dvalue", 16)] { for rep in 0..4 {
         let insts: Vec<Inst> = (0..n).map(|p| Inst { out: Reg(p as u32), op: Op::Input(Input { party: p as u32, input: 0 }) }).chain(std::iter::once(Inst { out: Reg(n as u32), op: Op::And(And(Reg(victim as u32), Reg(adv as u32))) })).collect();
         let c = Circuit { input_regs: vec![1; n], insts, max_reg_count: n + 1, output_regs: vec![Reg(n as u32)], and_ops: 1 };
         let mut inputs: Vec<Vec<bool>> = (0..n).map(|_| vec![r.bool()]).collect(); inputs[victim][0] = false; inputs[adv][0] = true;
         let args: Vec<PartyArgs> = (0..n).map(|p| PartyArgs { inputs: inputs[p].clone(), p_eval: if rep % 2 == 0 { victim } else { adv }, p_own: p, p_out: (0..n).collect(), tmp_dir: None }).collect();
-        let m: exec::Mutator = Box::new(move |from, _to, p, k, mut d| { if from == adv && p == "faand" && k == 0 && d.len() > which && d[which] <= 1 { d[which] ^= 1; } Some(d) });
+        let m: exec::Mutator = Box::new(move |from, _to, p, k, mut d| { if from == adv && p == lie_phase && k == 0 && d.len() > which && d[which] <= 1 { d[which] ^= 1; } Some(d) });
         let seen = std::rc::Rc::new(std::cell::Cell::new(false)); let seen2 = seen.clone();
-        exec::set_recv_rewrite(Some(Box::new(move |at, _from, p, mut d| { if at == adv && p == "faand" && !seen2.get() && d.len() > which && d[which] <= 1 { seen2.set(true); d[which] ^= 1; } d })));
+        exec::set_recv_rewrite(Some(Box::new(move |at, _from, p, mut d| { if at == adv && p == lie_phase && !seen2.get() && d.len() > which && d[which] <= 1 { seen2.set(true); d[which] ^= 1; } d })));
         let run = exec::run(&c, &args, &cfg, Some(m)); execs += 1; exec::set_recv_rewrite(None);
-        let o = &run.outs[victim]; *dist.entry("field:faand/consistent-lie".into()).or_default() += 1; distinct.insert((n, "faand", if which == 8 { "consistent-d" } else { "consistent-e" }, rep % 2 == 1, adv, victim));
-        let desc = json!({"n": n, "phase": "faand", "field": if which == 8 { "d of the first triple, told consistently" } else { "e of the first triple, told consistently" }, "adversary": adv, "victim": victim, "victim_is_evaluator": rep % 2 == 0, "inputs": inputs.iter().map(|v| circ::bits(v)).collect::<Vec<_>>()});
+        let o = &run.outs[victim]; *dist.entry("field:faand/consistent-lie".into()).or_default() += 1; distinct.insert((n, lie_phase, if which == 8 { "consistent-d" } else if which == 9 { "consistent-e" } else { "consistent-dvalue" }, rep % 2 == 1, adv, victim));
+        let desc = json!({"n": n, "phase": lie_phase, "field": if which == 8 { "d of the first triple, told consistently" } else if which == 9 { "e of the first triple, told consistently" } else { "first bucket d-value, told consistently" }, "adversary": adv, "victim": victim, "victim_is_evaluator": rep % 2 == 0, "inputs": inputs.iter().map(|v| circ::bits(v)).collect::<Vec<_>>()});
         if let Out::Ok(v) = o { if v != &vec![false] { failures.push(json!({"property": "C02", "witness": "C02:consistent-preprocessing-lie", "failure": format!("honest party accepted {} although its own input false forces the output false", circ::bits(v)), "case": desc.clone()})); } }
         if let Out::Panic(msg) = o { failures.push(json!({"property": "C03", "witness": "C03:panic", "failure": format!("victim panicked: {msg}"), "case": desc})); }
     } } } }
